@@ -6,6 +6,7 @@ import json
 import numpy as np
 
 from harness import lat_common
+from harness import c08_extra
 
 
 def basic_codes(ctx):
@@ -132,7 +133,9 @@ def history_sweep(ctx, stage):
 def run(ctx):
     ctx.rule = ('per family: exhaustive CSS search (X-type and Z-type supports) over operators of weight < d on the '
                 'implementation\'s matrices for every size within the tier budget incl. non-square; a weight-d '
-                'non-trivial logical exists; supplied logicals not lighter than d over the full size range. '
+                'non-trivial logical exists; supplied logicals not lighter than d over the full size range; long thin and '
+                'large lattices with a side at / beyond 32, 64, 128 (256): n_k_d = model formula, supplied logicals of weight '
+                '>= d (lightest == d) in the normalizer, paired, non-trivial, equal to the model rows, no weight-1/2 logical. '
                 'nontrivial = size with rows != cols or d >= 3')
     lat_common.prepare(ctx)
     lat_common.stage(ctx, 'interrupted_evaluations', lat_common.interrupted_evaluations,
@@ -141,6 +144,7 @@ def run(ctx):
     fams = lat_common.run_families(ctx, 'check_c08', translator_families=['planar', 'toric', 'rotplanar', 'rottoric', 'color'])
     lat_common.stage(ctx, 'basic_codes', basic_codes)
     lat_common.stage(ctx, 'low_weight_sweep', low_weight_sweep)
+    lat_common.stage(ctx, 'large_sizes', c08_extra.large_sizes)
     lat_common.stage(ctx, 'optimised_mode', lat_common.optimised_mode, on_difference=history_sweep(ctx, 'optimised-mode'),
                      include_logging=False)
     lat_common.stage(ctx, 'logging_configurations', lat_common.logging_configurations,
